@@ -313,8 +313,17 @@ Args(ep) ==
 
 Call(ep, a, o, b, l, v, x) == [ep |-> ep, id |-> a.id, ver |-> a.ver, ids |-> a.ids, bbox |-> a.bbox, q |-> a.q, ctx |-> x,
                             opts |-> o, base |-> b, lim |-> l, via |-> v]
-CallsVia(V, X) == UNION {{Call(ep, a, o, b, l, v, x) : a \in Args(ep), o \in OptSeqs(ep), b \in BaseSet, l \in Lims, v \in V, x \in X} : ep \in EndpointNames}
-Calls == CallsVia(Vias, Ctxs)
+\* endpoint x arguments x options as one filtered product (TLC evaluates UNION over many large sets with a
+\* quadratic number of comparisons; a single set constructor is sorted once)
+ArgKinds  == {"id", "idver", "ids", "bbox", "q"}
+OptKinds  == {"feature", "notes", "none"}
+EpOf(ak, ok) == {ep \in EndpointNames : EP[ep].arg = ak /\ EP[ep].opt = ok}
+RepArg(ak)   == Args(CHOOSE ep \in EndpointNames : EP[ep].arg = ak)
+RepOpt(ok)   == OptSeqs(CHOOSE ep \in EndpointNames : EP[ep].opt = ok)
+EAO == UNION {{<<ep, a, o>> : ep \in EpOf(ak, ok), a \in RepArg(ak), o \in RepOpt(ok)} : ak \in ArgKinds, ok \in OptKinds}
+CallsVia(V, X) == {Call(t[1], t[2], t[3], b, l, v, x) : t \in EAO, b \in BaseSet, l \in Lims, v \in V, x \in X}
+\* The whole call space is CallsVia(Vias, Ctxs); it is sampled by OsmApiGen and never enumerated as one set (a
+\* zero-argument definition of it would be evaluated at every TLC start, Judge and Trace runs included).
 
 \* environment: statuses and response documents
 Statuses == {200, 404, 403, 410, 414, 500, 301, 204, 400, 401, 429, 503} \cup (IF Wide THEN {201, 302, 304, 405, 409, 412, 418, 502, 509} ELSE {})
@@ -356,11 +365,11 @@ Body(ep, shape, d) == d @@ BodyBase(ep, shape)
 \* The Model does not look at `via` (how the caller reaches the Datasource), so the design-level run fixes it.
 \* Narrow (quick) run: a star-shaped slice - at most one of {options, base URL, limiter} away from its default -
 \* and a slice of the environment.  Wide run: the star for every base URL plus the full product of arguments x
-\* options x limiter for one of the seven base URLs (the Model's treatment of the base is independent of the rest).
+\* options x limiter for two of the seven base URLs (the Model's treatment of the base is independent of the rest).
 Star(x)    == \/ (x.base = "" /\ x.lim = "none")
               \/ (x.opts = << >> /\ x.lim = "none")
               \/ (x.opts = << >> /\ x.base = "")
-MCCalls    == IF Wide THEN {x \in CallsVia({"ds"}, {"bg"}) : Star(x) \/ x.base = "http://m1.example/mirror%2Feu/api/0.6"}
+MCCalls    == IF Wide THEN {x \in CallsVia({"ds"}, {"bg"}) : Star(x) \/ x.base \in {"", "http://m1.example/mirror%2Feu/api/0.6"}}
                       ELSE {x \in CallsVia({"ds"}, {"bg"}) : Star(x)}
 \* Environment of the design-level run.  The Model looks at the document only when the status is 200, so other
 \* statuses are paired with two documents (with and without elements) instead of all of them.
